@@ -230,6 +230,22 @@ def gen_program(g, prof):
                       g.choice([["forever"], ["wait", "e0"], ["yield", 3], ["sleep", 5]]), ["yield", 1]]],
                     ["scope", sh, True, None, [g.choice([["yield", g.int(9, 14)], ["wait", "e1"]])]]]
             main = [["group", gg, body]] + main
+        elif which == "unshield_from_nested":
+            # P (cancelled) > S (shield) > X...: the host drops S's shield while it sits in a scope nested inside S,
+            # so S itself has no direct task at that moment
+            pn, sn = new("s"), new("s")
+            st["names"] += [pn, sn]
+            tail = [["shield", sn, False], g.choice([["forever"], ["wait", "e0"], ["yield", 2], ["sleep", 5]]), ["yield", 1]]
+            if g.bool():
+                inner = [["cancel", pn], ["yield", g.int(0, 2)]] + tail
+            else:
+                ext += [[g.int(1, 4), "cancel", pn]]
+                inner = [["yield", g.int(2, 5)]] + tail
+            for _ in range(g.int(1, 3)):
+                xn = new("s")
+                st["names"].append(xn)
+                inner = [["scope", xn, False, None, inner]]
+            main = [["scope", pn, False, None, [["scope", sn, True, None, inner], ["yield", 1]]]] + main
         elif which == "late_shield_after_observation":
             # P > M > S: P is cancelled, S's effective cancellation is observed (a cancelled sibling scope exits
             # without a checkpoint / has_pending_cancellation), then M becomes a shield, then a scope inside S is
